@@ -151,6 +151,18 @@ def run(chk):
                                 % (via, diff, [before[k] for k in diff], [after.get(k) for k in diff]), hcase)
                 chk.count("loaded-archive-history:" + via)
                 base_case.update(pre=pre, shared=shared, via=via)      # every later case of this world replays the history first
+        other_graph = None
+        if idx % 4 == 3:
+            # history: an incremental evaluation of ANOTHER graph of the process was started and abandoned after its first
+            # sub-graph (a consumer that stops early, an error that ends the evaluation): the generator stays suspended,
+            # never resumed, never closed.  Every schedule below must be what it is without that history.
+            import random as _random
+            hr2 = _random.Random(chk.seed * 104729 + idx)
+            other = sorted(set(hr2.randrange(len(spec)) for _ in range(hr2.randint(1, 3))))
+            other_graph = world.graph_for(other)
+            abandon(other_graph)
+            base_case["abandoned"] = other
+            chk.count("abandoned-incremental")
         record("run", W.evaluate(world, seeds, ss, graph, mode="run"))
         for k, o in enumerate(W.linear_extensions(rng, world, graph, 2)):
             record("extension%d" % k, W.evaluate(world, seeds, ss, graph, order=o))
@@ -166,6 +178,11 @@ def run(chk):
         if dup or lost or extra:
             chk.failure("get_subgraphs: duplicated %s lost %s foreign %s" % (dup, lost, extra), dict(base_case, order=None))
         chk.count("subgraphs:%d" % min(len(subs), 6))
+        if other_graph is not None:
+            # two sub-graph generators alive at once (nested evaluations, two workers): each yields what it yields alone
+            why = interleaved_subgraphs(world, other_graph, graph, subs)
+            if why:
+                chk.failure(why, dict(base_case, order=None, schedule="interleaved-get_subgraphs"))
         # get_subgraphs vs the model (IV.Dr.getSubgraphs): same key sets in the same order
         gkeys = list(graph)
         ids = world.ids
@@ -406,6 +423,33 @@ def oracle_single(rep, world, r, case):
     pass
 
 
+ABANDONED = []
+
+
+def abandon(graph):
+    """start get_subgraphs on `graph`, take its first sub-graph and leave the generator suspended (kept alive here)"""
+    gen = dr.get_subgraphs(dict((k, set(v)) for k, v in graph.items()))
+    next(gen, None)
+    ABANDONED.append(gen)
+    del ABANDONED[:-40]
+
+
+def interleaved_subgraphs(world, ga, gb, subs_b_alone):
+    """generator over ga suspended after its first sub-graph while gb is walked completely, then ga is finished"""
+    key = lambda subs: [sorted(world.ids.get(k, -1) for k in sg) for sg in subs]
+    alone_a = key(list(dr.get_subgraphs(dict((k, set(v)) for k, v in ga.items()))))
+    g1 = dr.get_subgraphs(dict((k, set(v)) for k, v in ga.items()))
+    first = next(g1, None)
+    mid = key(list(dr.get_subgraphs(dict((k, set(v)) for k, v in gb.items()))))
+    rest = list(g1)
+    got_a = key(([first] if first is not None else []) + rest)
+    if mid != key(subs_b_alone):
+        return "get_subgraphs next to another live generator yields %s, alone it yields %s" % (mid, key(subs_b_alone))
+    if got_a != alone_a:
+        return "a get_subgraphs generator resumed after another graph was walked yields %s, alone it yields %s" % (got_a, alone_a)
+    return None
+
+
 def _replay_once(data):
     case = data["case"]
     if case.get("op") == "default-graph":
@@ -444,6 +488,10 @@ def _replay_once(data):
         graph = world.graph_for(case["targets"])
         if case.get("dropped") is not None:
             graph.pop(world.comps[case["dropped"]], None)
+    if case.get("abandoned") is not None:
+        print("history: an incremental evaluation of the graph of %s was started and abandoned after its first sub-graph" % case["abandoned"])
+        og = world.graph_for(case["abandoned"])
+        abandon(og)
     g2 = lambda: dict((k, set(v)) for k, v in graph.items())
     ref = W.evaluate(world, seeds, ss, graph, mode="run")
     print("dr.run:      ", plain(ref.text))
@@ -471,6 +519,11 @@ def _replay_once(data):
             sorted((world.ids.get(k), v) for k, v in cnt.items() if v != 1),
             sorted(world.ids.get(k, "?") for k in cnt if k not in graph), sorted(world.ids[k] for k in graph if k not in cnt)))
         bad = True
+    if case.get("abandoned") is not None:
+        why = interleaved_subgraphs(world, world.graph_for(case["abandoned"]), graph, list(dr.get_subgraphs(g2())))
+        if why:
+            print("oracle:", why)
+            bad = True
     if case.get("late"):
         o = W.linear_extensions(random.Random(1), world, graph, 1)[0]
         ref = W.evaluate(world, seeds, ss, graph, order=o)
